@@ -196,6 +196,7 @@ def solve_all(obls, timeout_s=30, procs=None, use_cvc5=True):
     ctx = mp.get_context("fork")
     results = [None] * len(jobs)
     running = {}      # index -> (process, conn, start)
+    retried = {}
     nxt = 0
     while nxt < len(jobs) or running:
         while nxt < len(jobs) and len(running) < procs:
@@ -206,6 +207,7 @@ def solve_all(obls, timeout_s=30, procs=None, use_cvc5=True):
             running[nxt] = (p, pr, time.time())
             nxt += 1
         done = []
+        restarted = {}
         for i, (p, conn, t0) in running.items():
             if conn.poll(0):
                 try:
@@ -216,8 +218,28 @@ def solve_all(obls, timeout_s=30, procs=None, use_cvc5=True):
                 p.join(1)
                 done.append(i)
             elif not p.is_alive():
-                results[i] = {"name": jobs[i][0], "backend": "z3", "result": "unknown", "time_s": round(time.time() - t0, 3),
-                              "model": None, "reason": "solver process exited without a result"}
+                # the child may have written its result and exited between the two tests above
+                got = False
+                if conn.poll(0.5):
+                    try:
+                        results[i] = conn.recv()
+                        got = True
+                    except EOFError:
+                        pass
+                if not got:
+                    if retried.get(i, 0) < 1:
+                        # a crashed worker (killed under memory pressure, solver abort): one more attempt
+                        retried[i] = retried.get(i, 0) + 1
+                        conn.close()
+                        pr, pc = ctx.Pipe(duplex=False)
+                        p2 = ctx.Process(target=_child, args=(jobs[i], pc))
+                        p2.start()
+                        pc.close()
+                        restarted[i] = (p2, pr, time.time())
+                        continue
+                    results[i] = {"name": jobs[i][0], "backend": "z3", "result": "unknown", "time_s": round(time.time() - t0, 3),
+                                  "model": None, "reason": "solver process exited without a result (twice)"}
+                p.join(1)
                 done.append(i)
             elif time.time() - t0 > hard:
                 p.kill()
@@ -229,6 +251,7 @@ def solve_all(obls, timeout_s=30, procs=None, use_cvc5=True):
         for i in done:
             running[i][1].close()
             del running[i]
+        running.update(restarted)
         if not done:
             time.sleep(0.01)
     return results
